@@ -130,7 +130,7 @@ SMT_OPTIONS = ['--smt-option', 'smt.dt_lazy_splits=2']
 def run_verus(ws, modules=None, rlimit=None, threads=8, extra=None, timeout=3600):
     dd, ext = deps_dir(ws.repo)
     cmd = ['verus', 'src/lib.rs', '--crate-type=lib', '--crate-name', 'yamaquasi', '--edition', '2021',
-           '-L', 'dependency=' + dd] + ext + ['--output-json', '--time-expanded', '--triggers-mode', 'silent', '--multiple-errors', '12', '--num-threads', str(threads)] + SMT_OPTIONS
+           '-L', 'dependency=' + dd] + ext + ['--output-json', '--time-expanded', '--triggers-mode', 'silent', '--multiple-errors', '12', '--num-threads', str(threads), '-Zcrate-attr=feature(allocator_api)'] + SMT_OPTIONS
     if rlimit:
         cmd += ['--rlimit', str(rlimit)]
     for m in modules or []:
